@@ -188,6 +188,21 @@ func (p *Pegnet) SelectTransactionHistoryStatus(hash *factom.Bytes32) (uint32, i
 	return height, executed, nil
 }
 
+// IsKnownTransaction returns true if the entry hash was already recorded in the
+// history, whatever became of it (pending, executed or rejected). It reads
+// through the block's sql.Tx so that copies within one block see each other.
+func (p *Pegnet) IsKnownTransaction(tx *sql.Tx, hash *factom.Bytes32) (bool, error) {
+	var found int
+	err := tx.QueryRow(`SELECT 1 FROM "pn_history_txbatch" WHERE entry_hash = ? LIMIT 1`, hash[:]).Scan(&found)
+	if err == sql.ErrNoRows {
+		return false, nil
+	}
+	if err != nil {
+		return false, err
+	}
+	return true, nil
+}
+
 // SetTransactionHistoryExecuted updates a transaction's executed status
 func (p *Pegnet) SetTransactionHistoryExecuted(tx *sql.Tx, txbatch *fat2.TransactionBatch, executed int64) error {
 	stmt, err := tx.Prepare(`UPDATE "pn_history_txbatch" SET executed = ? WHERE entry_hash = ?`)
